@@ -146,6 +146,91 @@ func runC05(c *Ctx) {
 	}
 	cases = append(cases, deep...)
 
+	// ---- part 2: every operator / static function / method on boundary operands of every type ----
+	pool := []string{"0", "1", "(0 - 1)", "(0 - 9223372036854775807 - 1)", "9223372036854775807", "0.5", "(0.0 - 1.5)", "(1.0 / 0.0)", "\"\"", "\"ab\"", "true",
+		"[]", "[1, 2, 3]", "[\"a\", 1]", "{}", "{x: 1}", "(e -> e)", "((p, q) -> p)", "(e -> e > 1)", "numbers(3)"}
+	recv := map[string][]string{"int": {"0", "(0 - 1)", "9223372036854775807"}, "float": {"0.5", "(1.0 / 0.0)"}, "string": {"\"\"", "\"ab é\""}, "bool": {"true"},
+		"list": {"[]", "[1, 2, 3]", "[\"a\", 1, [2]]", "numbers(4).map(e -> e * 2)"}, "map": {"{}", "{x: 1, y: \"s\"}"}, "closure": {"(e -> e)", "((p, q) -> p)"}}
+	var sweep []*workerCase
+	addSweep := func(kind, src string) {
+		id++
+		wc := &workerCase{id: fmt.Sprintf("s%d", id), a: 0, flags: "opt", src: src}
+		meta[wc.id] = [3]string{kind, "boundary-sweep", "opt"}
+		sweep = append(sweep, wc)
+	}
+	for _, op := range c02Ops {
+		for _, x := range pool {
+			for _, y := range pool {
+				if c.Thorough || c.rng.Intn(4) == 0 {
+					addSweep("operator:"+op, fmt.Sprintf("%s %s %s", x, op, y))
+				}
+			}
+		}
+	}
+	hfg := newHostFG(true)
+	for name, f := range hfg.VerifStatics() {
+		if name == "slow" || name == "boom" || name == "createLowPass" {
+			continue
+		}
+		ar := f.Args
+		if ar < 0 {
+			ar = 1 + c.rng.Intn(2)
+		}
+		trials := c.Pick(12, 120)
+		for t := 0; t < trials; t++ {
+			args := make([]string, ar)
+			for i := range args {
+				args[i] = pool[c.rng.Intn(len(pool))]
+			}
+			if name == "numbers" && strings.Contains(args[0], "9223372036854775807") {
+				continue // forcing a list of 2^63 elements is legitimately endless; the harness forces results
+			}
+			addSweep("static:"+name, fmt.Sprintf("%s(%s)", name, strings.Join(args, ", ")))
+		}
+	}
+	for ty, ms := range hfg.VerifMethods() {
+		rs := recv[ty]
+		if len(rs) == 0 {
+			continue
+		}
+		for name, f := range ms {
+			ar := f.Args - 1
+			if f.Args < 0 {
+				ar = c.rng.Intn(3)
+			}
+			trials := c.Pick(10, 150)
+			for t := 0; t < trials; t++ {
+				args := make([]string, ar)
+				for i := range args {
+					args[i] = pool[c.rng.Intn(len(pool))]
+				}
+				call := fmt.Sprintf("%s.%s(%s)", rs[c.rng.Intn(len(rs))], name, strings.Join(args, ", "))
+				// force lazy results so that faults inside the stage surface
+				addSweep("method:"+ty+"."+name, "string("+call+")")
+			}
+		}
+	}
+	parallelBatches(sweep, 14, false, 8, 20*time.Second)
+	for _, wc := range sweep {
+		m := meta[wc.id]
+		c.Case(wc.src, true)
+		c.Count("sweep-outcome=" + strings.SplitN(wc.outcome, " ", 2)[0])
+		c.Count("sweep-kind=" + strings.SplitN(m[0], ":", 2)[0])
+		replay := map[string]any{"program": wc.src, "kind": m[0], "outcome": wc.outcome}
+		if wc.stderr != "" {
+			replay["stderr_head"] = firstLines(wc.stderr, 12)
+		}
+		switch {
+		case wc.outcome == "CRASH":
+			c.Violation("crash:"+m[0], "the worker process died while evaluating a built-in on boundary operands", replay)
+		case wc.outcome == "TIMEOUT":
+			c.Violation("hang:"+m[0], "a built-in did not return on boundary operands", replay)
+		case strings.HasPrefix(wc.outcome, "PANIC"):
+			c.Violation("panic-escaped:"+m[0], "a Go panic escaped Func.Eval", replay)
+		}
+	}
+	c.extra["boundary_sweep_cases"] = len(sweep)
+
 	for _, wc := range cases {
 		m := meta[wc.id]
 		canon := m[0] + "|" + m[1] + "|" + m[2]
